@@ -9,7 +9,7 @@ import os, sys, subprocess, json, shutil, time, concurrent.futures as cf
 V = os.path.dirname(os.path.abspath(__file__))
 def sh(cmd, **kw):
     return subprocess.run(cmd, stdout=subprocess.PIPE, stderr=subprocess.STDOUT, text=True, **kw)
-def one(sid, tier, jobs, props):
+def one(sid, tier, jobs, props, units=None):
     d = os.path.join(V, "seeded", sid)
     wt = "/tmp/sw_" + sid; out = wt + "_out"
     sh(["git", "-C", "/repo", "worktree", "remove", "--force", wt]); shutil.rmtree(wt, ignore_errors=True); shutil.rmtree(out, ignore_errors=True)
@@ -22,6 +22,7 @@ def one(sid, tier, jobs, props):
         os.makedirs(out)
         for p in props or [sid.split("_")[0]]:
             env = dict(os.environ, VERIF_REPO=wt, VERIF_EVIDENCE_DIR=out, VERIF_REPLAY_DIR=os.path.join(out, "replays"), VERIF_JOBS=str(jobs))
+            if units: env["VERIF_UNITS"] = units
             t = time.time()
             r = sh([os.path.join(V, "check"), p, "--tier", tier], cwd=V, env=env)
             lines = r.stdout.splitlines()
@@ -37,18 +38,19 @@ def one(sid, tier, jobs, props):
     res["caught"] = bool(own and own["exit"] == 1 and own["violations"])
     return res
 def main():
-    a = sys.argv[1:]; tier = "quick"; jobs = 16; par = 1; props = None
+    a = sys.argv[1:]; tier = "quick"; jobs = 16; par = 1; props = None; units = None
     while a and a[0].startswith("--"):
         if a[0] == "--tier": tier = a[1]
         elif a[0] == "--jobs": jobs = int(a[1])
         elif a[0] == "--par": par = int(a[1])
         elif a[0] == "--props": props = a[1].split(",")
+        elif a[0] == "--units": units = a[1]
         a = a[2:]
     ids = a or sorted(x for x in os.listdir(os.path.join(V, "seeded")) if os.path.exists(os.path.join(V, "seeded", x, "patch.diff")))
     with cf.ThreadPoolExecutor(max_workers=par) as ex:
-        for res in ex.map(lambda s: one(s, tier, jobs, props), ids):
+        for res in ex.map(lambda s: one(s, tier, jobs, props, units), ids):
             sid = res["seeded"]
-            if not props:
+            if not props and not units:
                 json.dump(res, open(os.path.join(V, "seeded", sid, "result.json"), "w"), indent=1)
             print(sid, "CAUGHT" if res.get("caught") else "MISSED", {p: (c["exit"], c["wall_s"]) for p, c in res["checks"].items()}, res.get("error", ""), flush=True)
             for p, c in res["checks"].items():
